@@ -211,6 +211,13 @@ def Sys.failSend (s : Sys) (oid : Nat) (it : Item) : Sys :=
   | .env _ _ => s.complete oid .send (some .actorStopped)
   | .stop _ => s.complete oid .ok none          -- stop() maps a closed mailbox to Ok
 
+/-- only tell/ask have `*_with_timeout` variants -/
+def opDeadline (clock : Nat) (op : OpSpec) : Option Nat :=
+  match op.kind with
+  | .tell => op.timeout.map (clock + ·)
+  | .ask => op.timeout.map (clock + ·)
+  | _ => none
+
 def runOutAt (sc : Script) (k : Nat) : ROut := sc.runOuts.getD k .cont
 
 /-! ### the step function -/
@@ -219,7 +226,7 @@ def Sys.issue (s : Sys) (h : Nat) (op : OpSpec) : Option Sys :=
   if (h, true) ∈ s.handles then
     let oid := s.nextOid
     let s : Sys := { s with nextOid := oid + 1, spec := setF s.spec oid op,
-                            deadline := setF s.deadline oid (op.timeout.map (s.clock + ·)),
+                            deadline := setF s.deadline oid (opDeadline s.clock op),
                             inflight := s.inflight + 1,
                             ev := s.ev ++ [.issued oid op.kind op.timeout s.clock] }
     match opItem oid op.kind with
@@ -250,6 +257,18 @@ def Sys.afterStrand (s : Sys) (it : Item) : Sys :=
   | .env mid .tell => s.complete mid .ok none
   | .env mid .ask => { s with client := setF s.client mid .awaiting, reply := setF s.reply mid .pending }
   | .stop oid => s.complete oid .ok none
+
+/-- poll of the live on_run future: it waits for its gate, then completes with its scripted outcome -/
+def Sys.runStep (s : Sys) : Option Sys :=
+  if s.gatePermits = 0 then some { s with pc := .parked }
+  else
+    let k := s.runIdx - 1
+    let s : Sys := { s with gatePermits := s.gatePermits - 1, runLive := false, hooks := s.hooks ++ [.run k] }
+    match runOutAt s.script k with
+    | .cont => some { s with pc := .selTerm, ev := s.ev ++ [.runEnd k .cont] }
+    | .disable => some { s with pc := .selTerm, idleEnabled := false, ev := s.ev ++ [.runEnd k .disable] }
+    | .err => some { s with pc := .stopping false true false, ev := s.ev ++ [.runEnd k .err, .stopStart false] }
+    | .panic => some (s.finish none [.runEnd k .panic])
 
 def step? (s : Sys) : Label → Option Sys
   | .issue h op => s.issue h op
@@ -361,19 +380,10 @@ def step? (s : Sys) : Label → Option Sys
   | .pollRun =>
     if s.pc = .selRun then
       if ¬ s.idleEnabled then some { s with pc := .parked }
+      else if s.runLive then s.runStep
       else
         -- first poll of a fresh future restarts the body
-        let s : Sys := if s.runLive then s
-                 else { s with runLive := true, runIdx := s.runIdx + 1, ev := s.ev ++ [.runPoll s.runIdx] }
-        if s.gatePermits = 0 then some { s with pc := .parked }
-        else
-          let k := s.runIdx - 1
-          let s : Sys := { s with gatePermits := s.gatePermits - 1, runLive := false, hooks := s.hooks ++ [.run k] }
-          match runOutAt s.script k with
-          | .cont => some { s with pc := .selTerm, ev := s.ev ++ [.runEnd k .cont] }
-          | .disable => some { s with pc := .selTerm, idleEnabled := false, ev := s.ev ++ [.runEnd k .disable] }
-          | .err => some { s with pc := .stopping false true false, ev := s.ev ++ [.runEnd k .err, .stopStart false] }
-          | .panic => some (s.finish none [.runEnd k .panic])
+        Sys.runStep { s with runLive := true, runIdx := s.runIdx + 1, ev := s.ev ++ [.runPoll s.runIdx] }
     else none
   | .wake => if s.pc = .parked then some { s with pc := .selTerm } else none
   | .handlerDone =>
